@@ -8,7 +8,7 @@ ID = "C14"
 BUDGET = {"quick": 6, "thorough": 120}
 EXHAUSTIVE = True
 RULE = ("EXHAUSTIVE decision table, every run: name class {built-in helper, user helper, data field, helper AND field, "
-        "neither} x tag form {bare, with args, block, else-chain link (inline and on its own line), subexpression, ./name, this.name, [name]} x configuration {hook "
+        "neither} x tag form {bare, with args, block, else-chain link (inline and on its own line), raw block, subexpression, ./name, this.name, [name]} x configuration {hook "
         "helpers registered or not, local helper (registered by a decorator earlier in the template) or not, strict or not}, "
         "each cell placed at several nesting positions (top level, inside each, inside with, inside a partial); marker-writing "
         "helpers/hooks and a context-replacing decorator are defined in the harness and mirrored in the model; oracle = the "
@@ -76,6 +76,19 @@ def cell(nameclass, form, hooks, local, strict):
             exp = ("out", "[BHM:%s:[1, 2]]B[/BHM]" % name)
         else:
             exp = ("err", "HelperNotFound")
+    elif form == "rawblk":
+        # a raw block is a block call: its name is resolved like any block helper's name, its verbatim text is the body
+        t = "{{{{%s arr}}}}B {{x}}{{{{/%s}}}}" % (name, name)
+        if local:
+            exp = ("out", "[L:%s:[1, 2]]B {{x}}[/L]" % name)
+        elif nameclass == "builtin":
+            exp = ("out", "2")
+        elif has_helper:
+            exp = ("out", "[U:%s:[1, 2]]B {{x}}[/U]" % name)
+        elif hooks:
+            exp = ("out", "[BHM:%s:[1, 2]]B {{x}}[/BHM]" % name)
+        else:
+            exp = ("err", "HelperNotFound")
     elif form == "sub":
         t = "{{id (%s arr)}}" % name
         if local:
@@ -108,7 +121,7 @@ def generate(rng, n, tier="quick"):
     k = 0
     data_base = {"fld": "F", "both": "F", "arr": [1, 2], "one": [0], "w": {}, "fls": False}
     for nameclass, form, hooks, local, strict in itertools.product(
-            ["builtin", "user", "field", "both", "neither"], ["bare", "args", "block", "chain", "chainnl", "sub", "dot", "this", "brk"],
+            ["builtin", "user", "field", "both", "neither"], ["bare", "args", "block", "chain", "chainnl", "rawblk", "sub", "dot", "this", "brk"],
             [False, True], [False, True], [False, True]):
         if local and form in ("dot", "this", "brk"):
             pass
